@@ -238,7 +238,7 @@ func (c *V1) Do(op Op) (out Outcome) {
 	}
 	switch op.Kind {
 	case OpPut:
-		in := &v1ddb.PutItemInput{TableName: aws.String(op.Table), Item: ItemToV1(op.Item), ConditionExpression: strp(op.Cond),
+		in := &v1ddb.PutItemInput{TableName: aws.String(op.Table), Item: ItemToV1(op.Item), ConditionExpression: condExpr(op),
 			ExpressionAttributeNames: v1Names(op.Names), ExpressionAttributeValues: ItemToV1(op.Values)}
 		_, err := c.callPutItem(in)
 		return fin(err)
@@ -260,7 +260,7 @@ func (c *V1) Do(op Op) (out Outcome) {
 		return o
 	case OpUpdate:
 		in := &v1ddb.UpdateItemInput{TableName: aws.String(op.Table), Key: ItemToV1(op.Key), UpdateExpression: updExpr(op),
-			ConditionExpression: strp(op.Cond), ExpressionAttributeNames: v1Names(op.Names), ExpressionAttributeValues: ItemToV1(op.Values)}
+			ConditionExpression: condExpr(op), ExpressionAttributeNames: v1Names(op.Names), ExpressionAttributeValues: ItemToV1(op.Values)}
 		res, err := c.callUpdateItem(in)
 		o := fin(err)
 		if err == nil {
@@ -272,7 +272,7 @@ func (c *V1) Do(op Op) (out Outcome) {
 		}
 		return o
 	case OpDelete:
-		in := &v1ddb.DeleteItemInput{TableName: aws.String(op.Table), Key: ItemToV1(op.Key), ConditionExpression: strp(op.Cond),
+		in := &v1ddb.DeleteItemInput{TableName: aws.String(op.Table), Key: ItemToV1(op.Key), ConditionExpression: condExpr(op),
 			ExpressionAttributeNames: v1Names(op.Names), ExpressionAttributeValues: ItemToV1(op.Values)}
 		if op.RetOld {
 			in.ReturnValues = aws.String("ALL_OLD")
